@@ -718,8 +718,55 @@ fn replay(args: &[String]) -> i32 {
                 }
             }
         }
+        Some("classes") => {
+            // classes <layout> <k>...: key classes under the editor's protocol; k = class (key_press),
+            // 100 + class (fuzzy_key_press), 255 (remove_last)
+            let l: usize = args[1].parse().unwrap();
+            let mut ed = new_layout(l);
+            let mut bad = false;
+            for a in &args[2..] {
+                let k: usize = a.parse().unwrap();
+                let r = catch(AssertUnwindSafe(|| match k {
+                    255 => {
+                        ed.remove_last();
+                        None
+                    }
+                    k if k >= 100 => Some(ed.fuzzy_key_press(class_event(k - 100))),
+                    k => Some(ed.key_press(class_event(k))),
+                }));
+                match r {
+                    Err(p) => {
+                        println!("key {} -> panic {}", k, p);
+                        return 1;
+                    }
+                    Ok(b) => {
+                        let handed = match &b {
+                            Some(KeyBehavior::Commit) => Some(ed.read()),
+                            Some(KeyBehavior::Fuzzy(s)) => Some(*s),
+                            _ => None,
+                        };
+                        println!("key {} -> {:?}, syllable {:#x} {:?}", k, b, ed.read().to_u16(), ed.read().to_string());
+                        if let Some(s) = handed {
+                            if s.is_empty() || !composable(s.to_u16()) {
+                                println!("  handed syllable {:#x} is not a composable syllable", s.to_u16());
+                                bad = true;
+                            }
+                        }
+                        if let Some(KeyBehavior::Commit) = &b {
+                            ed.clear();
+                        }
+                        let v = ed.read().to_u16();
+                        if !(ed.is_empty() || composable(v)) {
+                            println!("  state {:#x} is not well formed", v);
+                            bad = true;
+                        }
+                    }
+                }
+            }
+            if bad { 1 } else { 0 }
+        }
         _ => {
-            eprintln!("usage: c14 replay reach|ascii|keys ...");
+            eprintln!("usage: c14 replay reach|ascii|keys|classes ...");
             2
         }
     }
